@@ -323,7 +323,7 @@ Definition ex_nicv_obs : attack_obs :=
   {| ao_kind := APart Partitioned.NICV; ao_disc := Models.DNanmax; ao_word := 0; ao_T := []; ao_P := [];
      ao_scores := [Fin 1 0; Fin 5033165 (-23); Fin 7549747 (-23); Fin 13421773 (-24)]; ao_argmax := 5%Z; ao_sep := true |}.
 Definition ex_camp (e : Z) (atts : list attack_obs) : camp_case :=
-  {| cc_S := 2; cc_gain := 1%Z; cc_amp := 1%Z; cc_traces := [[1; 0]; [2; 1]; [3; 0]; [4; 1]; [2; (-1)]; [0; 1]]%Z;
+  {| cc_S := 2; cc_offset := 0%Z; cc_gain := 1%Z; cc_amp := 1%Z; cc_traces := [[1; 0]; [2; 1]; [3; 0]; [4; 1]; [2; (-1)]; [0; 1]]%Z;
      cc_words := [ex_word e]; cc_parts := [0; 1; 2; 3; 4]%Z; cc_edges := []; cc_ln := []; cc_attacks := atts |}.
 Definition ex_good : list fval := [Fin 1 0; Fin 9048957 (-24); Fin 4955 (-13); Fin 8717697 (-24)].
 Definition ex_swapped : list fval := [Fin 9048957 (-24); Fin 1 0; Fin 4955 (-13); Fin 8717697 (-24)].
